@@ -20,13 +20,16 @@ LOG_CMDS = [(['reg'], ()), (['bal'], ()), (['report', 'totals'], ()), (['report'
 def planted(g):
     r = g.r
     name = g.word(2, 6, 0.2).encode()
+    if r.random() < 0.25:
+        # bytes that a careless message formatter would mangle: printf verbs, quotes, backslashes, tabs
+        name += r.choice([b'%', b'-50%', b'%d', b'%s', b'%!', b'"q"x', b'\\n', b'%v%'])
     indent = r.choice([b'  ', b'\t', b'    ', b'- ', b'  - '])
     if r.random() < 0.5:
         body = name + r.choice([b':1', b'', b':', b'=2', b':1.5'])
         body = body if body.strip(b'\t :"-') else name
         line = indent + body
         return line, 'badSyntax', None
-    bad = r.choice([b'abc', b'1,5', b'1.2.3', b'--1', b'1e', b'0x10', b'1_', b'12kg', b'.', b'e5', b'+-1', b'1e999'])
+    bad = r.choice([b'abc', b'1,5', b'1.2.3', b'--1', b'1e', b'0x10', b'1_', b'12kg', b'.', b'e5', b'+-1', b'1e999', b'1.5%', b'%d', b'5\\', b'1"x'])
     line = indent + name + r.choice([b': ', b'  ', b':\t']) + bad
     return line, 'conversion', bad
 
